@@ -55,6 +55,8 @@ type State struct {
 	base  int               // lazy base id for components not in heap
 	top   string            // allocation counter (Int term)
 	ghost map[string]string // ghost scalar state (Int terms)
+	hbound map[string]string // component -> allocation counter when it was last written
+	baseTop string           // bound for components never written since the last whole-heap havoc
 	defers []deferred
 }
 
@@ -64,9 +66,12 @@ type deferred struct {
 }
 
 func (s *State) clone() *State {
-	n := &State{cur: s.cur, base: s.base, top: s.top, heap: map[string]string{}, ghost: map[string]string{}}
+	n := &State{cur: s.cur, base: s.base, top: s.top, heap: map[string]string{}, ghost: map[string]string{}, hbound: map[string]string{}, baseTop: s.baseTop}
 	for k, v := range s.heap {
 		n.heap[k] = v
+	}
+	for k, v := range s.hbound {
+		n.hbound[k] = v
 	}
 	for k, v := range s.ghost {
 		n.ghost[k] = v
@@ -283,13 +288,41 @@ func (c *fnCtx) havocComp(st *State, comp string) {
 	n := smtName(c.fresh("H!" + comp))
 	c.declare(n, fmt.Sprintf("(Array Ref %s)", srt))
 	st.heap[comp] = n
+	st.hbound[comp] = "$cur"
+}
+
+// sealBounds pins pending "written just now" bounds to the current allocation counter.
+func (c *fnCtx) sealBounds(st *State) {
+	for k, v := range st.hbound {
+		if v == "$cur" {
+			st.hbound[k] = st.top
+		}
+	}
+	if st.baseTop == "$cur" {
+		st.baseTop = st.top
+	}
+}
+
+// boundOf returns the allocation-counter bound of every reference stored in comp.
+func (c *fnCtx) boundOf(st *State, comp string) string {
+	if b, ok := st.hbound[comp]; ok && b != "$cur" {
+		return b
+	} else if ok {
+		return st.top
+	}
+	if st.baseTop == "$cur" {
+		return st.top
+	}
+	return st.baseTop
 }
 
 func (c *fnCtx) havocAll(st *State) {
 	c.nbase++
 	st.base = c.nbase
 	st.heap = map[string]string{}
+	st.hbound = map[string]string{}
 	c.bumpTop(st)
+	st.baseTop = "$cur"
 }
 
 func (c *fnCtx) bumpTop(st *State) {
@@ -398,6 +431,29 @@ func (c *fnCtx) loadLocs(st *State, locs []leafLoc, t types.Type) SymVal {
 	return v
 }
 
+// loadBound: a bound on the allocation ids of references read from locs.
+func (c *fnCtx) loadBound(st *State, locs []leafLoc) string {
+	b := ""
+	for _, l := range locs {
+		if l.k != KRef && l.k != KIface {
+			continue
+		}
+		lb := c.boundOf(st, l.comp)
+		if lb == "$cur" {
+			lb = st.top
+		}
+		if b == "" {
+			b = lb
+		} else if b != lb {
+			return st.top
+		}
+	}
+	if b == "" {
+		return st.top
+	}
+	return b
+}
+
 func (c *fnCtx) storeLocs(st *State, locs []leafLoc, v SymVal) {
 	fl := flatten(v)
 	if len(fl) != len(locs) {
@@ -410,6 +466,9 @@ func (c *fnCtx) storeLocs(st *State, locs []leafLoc, v SymVal) {
 	for i, l := range locs {
 		old := c.comp(st, l.comp, c.sortOf(l.k, l.t))
 		st.heap[l.comp] = c.define("H", fmt.Sprintf("(Array Ref %s)", c.sortOf(l.k, l.t)), app("store", old, l.ref, fl[i].S))
+		if l.k == KRef || l.k == KIface {
+			st.hbound[l.comp] = st.top
+		}
 	}
 }
 
@@ -466,7 +525,9 @@ func (c *fnCtx) freshVal(st *State, t types.Type, hint string) SymVal {
 	return v
 }
 
-func (c *fnCtx) assumeWellFormed(st *State, v SymVal) {
+func (c *fnCtx) assumeWellFormed(st *State, v SymVal) { c.assumeWFB(st, v, st.top) }
+
+func (c *fnCtx) assumeWFB(st *State, v SymVal, bound string) {
 	var facts []string
 	var walk func(v SymVal)
 	walk = func(v SymVal) {
@@ -474,16 +535,16 @@ func (c *fnCtx) assumeWellFormed(st *State, v SymVal) {
 		case KInt:
 			facts = append(facts, c.rangeFact(v.S, v.T))
 		case KRef:
-			facts = append(facts, app("<=", app("rootid", v.S), st.top))
+			facts = append(facts, app("<=", app("rootid", v.S), bound))
 		case KSlice:
-			facts = append(facts, app("<=", app("rootid", v.Fs[0].S), st.top))
+			facts = append(facts, app("<=", app("rootid", v.Fs[0].S), bound))
 			z := c.zeroInt()
 			facts = append(facts, c.cmpS("<=", z, v.Fs[1].S), c.cmpS("<=", z, v.Fs[2].S), c.cmpS("<=", v.Fs[2].S, v.Fs[3].S))
 			if !c.bv {
 				facts = append(facts, app("<=", v.Fs[3].S, "281474976710656"))
 			}
 		case KIface:
-			facts = append(facts, app("<=", app("rootid", app("iref", v.S)), st.top), app(">=", app("itag", v.S), "0"))
+			facts = append(facts, app("<=", app("rootid", app("iref", v.S)), bound), app(">=", app("itag", v.S), "0"))
 			facts = append(facts, app("=", app("=", app("itag", v.S), "0"), app("=", v.S, "nilI")))
 		case KStr:
 			facts = append(facts, app("<=", "0", app("slen", v.S)))
